@@ -76,6 +76,22 @@ def workload(ctx):
             for n in (cap - 3, cap - 2, cap - 1):
                 if n >= 1:
                     ev.append(hl([0xE9] * n, shape, (), (w, h), tag="b256-fill"))
+    # (6) run-length sweeps: a run of one mode's native characters of EVERY length (mode-specific length fields, triplet / quadruple
+    #     boundaries, end-of-data shortcuts that depend on the free codewords of the symbol reached), alone and after 1-3 digits
+    runs = [([64], 100), ([65], 100), ([97], 100), ([65, 42], 60), ([94], 100), ([0xE9], 260), ([0x80], 60), ([49], 100), ([33, 63], 40)]
+    for unit, top in runs:
+        step = 1 if (not ctx.quick or top <= 100) else 1
+        for n in range(1, top + 1, step):
+            t = (unit * n)[:n]
+            ev.append(hl(t, tag="run"))
+            if n % 3 == ctx.seed % 3:
+                ev.append(hl([49] * (1 + n % 3) + t, tag="run"))
+    # (7) one extended / foreign character inside a C40, Text, X12 or EDIFACT run (upper shift inside a segment, mode exits)
+    for unit in ([65], [97], [65, 42, 13], [94, 64]):
+        for i in range(3, 11):
+            for j in range(0, 7):
+                for ext in ((0x80, 0xA0, 0xE0, 0xE9, 0xFF) if unit[0] in (65, 97) else (0xE9, 97, 33)):
+                    ev.append(hl((unit * 12)[:i] + [ext] + (unit * 12)[:j], tag="ext-in-run"))
     # (5) non Latin-1 and empty texts must be refused
     ev.append(hl([0x3042, 65], tag="nonlatin1")); ev.append(hl([65, 0x20AC], tag="nonlatin1")); ev.append(hl([0x100], tag="nonlatin1"))
     return ev
